@@ -21,6 +21,7 @@ from ref import secp, sighash as rs, stdverify, txmodel as tm
 from sim.core import SimDeadlock, plan_rng
 
 WORLD = "sighash"
+HANG_S = 25
 TIME_UNIT = "logical time: operations applied to the transaction object (no timers in this world)"
 
 COMPONENTS = {
@@ -584,6 +585,12 @@ class World:
                 if inp.annex is None and len(points) > 1:
                     ti.witness = Witness()
                     tx.initialize_p2tr_multisig(idx, cb, tap_script)
+                    if st.get("partial_first") and len(sigs) >= 1:
+                        # signatures come in one at a time: an early attempt with too few of them, then the complete set on the same object
+                        tr.fault("finalize_attempt_with_too_few_signatures")
+                        early = tx.finalize_p2tr_multisig(idx, sigs[: inp.m - 1])
+                        if early and inp.m > 1:
+                            fail("C06", "H4", "finalize_with_too_few_signatures_valid_p2tr_script", f"finalize_p2tr_multisig with {inp.m - 1} of {inp.m} required signatures reported a valid spend")
                     ok = tx.finalize_p2tr_multisig(idx, sigs)
                 else:
                     # witness stack: signatures in reverse key order (last key's signature first), empty for non-signers
@@ -881,7 +888,9 @@ class World:
             for b, ii in zip(rx.tx_ins, self.inps):
                 b._value = ii.amount
                 b._script_pubkey = lib_script(ii.spk, ScriptPubKey)
+            tr.calling(f"receiver_verify_input_{label}_{inp.kind}")
             lib = bool(rx.verify_input(idx))
+            tr.calling(None)
             lib_note = ""
         except SimDeadlock:
             raise
@@ -1098,6 +1107,58 @@ class World:
                 return "sigfree_opcodes_scriptsig" + ("" if place in (0, 2) else "_behind_redeem")
             mi["script_sig"] = bytes(ops)
             return "sigfree_opcodes_scriptsig"
+        if k == "program_splice":
+            # signature-free spends that plant a witness-program pattern (<0> <20/32 bytes> or <1> <32 bytes>) where it does not belong:
+            # in the scriptSig of a non-witness output, or among the witness items of a witness output, together with an attacker-chosen
+            # "witness script" / taproot leaf; none of them carries a valid signature of a script key
+            v = a % 6
+            one = b"\x51"  # OP_1
+            junk = bytes([0x42 + b % 5]) * (1 + b % 30)
+            if v == 0 and kind in ("p2sh_ms", "p2sh_p2wpkh", "p2sh_p2wsh_ms", "p2pkh"):
+                # v0 pattern in the scriptSig, witness script OP_1 (p2pkh: OP_0 OP_IF ... with witness script OP_ENDIF OP_1)
+                if kind == "p2pkh":
+                    w_ = b"\x68\x51"
+                    mi["script_sig"] = b"\x00" + tm.push(tm.sha256(w_)) + b"\x00\x63"
+                else:
+                    w_ = one
+                    mi["script_sig"] = b"\x00" + tm.push(tm.sha256(w_)) + tm.push(junk)
+                mi["witness"] = [w_]
+                return "v0_program_in_scriptsig"
+            if v == 1 and kind in ("p2sh_ms", "p2sh_p2wpkh", "p2sh_p2wsh_ms", "p2pkh"):
+                # v1 pattern in the scriptSig with the attacker's own one-leaf tree (leaf OP_1)
+                ix = secp.xonly(pub((inp.keys[0] + 3) % 8))
+                lh = rs.tapleaf_hash(one)
+                q = secp.taproot_tweak_pubkey(ix, lh)
+                cb = bytes([0xC0 + (q[1] & 1)]) + ix
+                mi["script_sig"] = b"\x51" + tm.push(secp.xonly(q)) + (tm.push(junk) if kind != "p2pkh" else b"")
+                mi["witness"] = [one, cb]
+                return "v1_program_in_scriptsig"
+            if v == 2 and kind == "p2tr_script" and inp.control is not None:
+                # inside the tapscript: <empty> <sha256(control block)> makes a v0 reader take the control block as a witness script
+                mi["witness"] = [b"", tm.sha256(inp.control)] + [b""] * len(inp.keys) + [inp.leaf_script, inp.control]
+                return "v0_program_among_tapscript_witness_items"
+            if v == 3 and kind in ("p2wpkh", "p2sh_p2wpkh"):
+                # <empty> <sha256(pubkey)> in front of a foreign signature and the owner's public key
+                sec_ = secp.sec(pub(inp.keys[0]))
+                mi["witness"] = [b"", tm.sha256(sec_), DUMMY_DER, sec_]
+                return "v0_program_among_p2wpkh_witness_items"
+            if v == 4 and kind in ("p2wsh_ms", "p2sh_p2wsh_ms") and inp.wscript is not None:
+                # <empty> <sha256(witness script)> in front of empty signature slots
+                mi["witness"] = [b"", tm.sha256(inp.wscript)] + [b""] * (inp.m + 1) + [inp.wscript]
+                return "v0_program_among_p2wsh_witness_items"
+            if v == 5 and kind in ("p2tr_key", "p2tr_script", "p2wpkh", "p2wsh_ms"):
+                # a nested v1 program: the witness carries <1> <Q'> of the attacker's tree ahead of its leaf and control block
+                ix = secp.xonly(pub((inp.keys[0] + 5) % 8))
+                lh = rs.tapleaf_hash(one)
+                q = secp.taproot_tweak_pubkey(ix, lh)
+                cb = bytes([0xC0 + (q[1] & 1)]) + ix
+                if kind in ("p2tr_key", "p2tr_script"):
+                    # the output key itself as the nested program, with the attacker's leaf and control block
+                    mi["witness"] = [b"\x01", inp.spk[2:], one, cb]
+                    return "v1_program_among_witness_items"
+                mi["witness"] = [b"\x01", secp.xonly(q), one, cb]
+                return "v1_program_among_witness_items"
+            return None
         if k == "wrong_script":
             # another (well-formed) redeem/witness script in place of the committed one
             other = tm.multisig_script(1, [secp.sec(pub((inp.keys[0] + 1 + a) % 8))])
@@ -1254,7 +1315,7 @@ def generate(ch, tier, prop):
             r = ch.random()
             if r < 0.25 and budget:
                 budget -= 1
-                steps.append({"op": "sign", "i": ch.randrange(4), "ht": ch.choice([0, 0, 1, 2, 3, 0x81, 0x82, 0x83]), "pick": ch.randrange(1000), "via_sign_input": ch.chance(0.3)})
+                steps.append({"op": "sign", "i": ch.randrange(4), "ht": ch.choice([0, 0, 1, 2, 3, 0x81, 0x82, 0x83]), "pick": ch.randrange(1000), "via_sign_input": ch.chance(0.3), "partial_first": ch.chance(0.3)})
                 if ch.chance(0.5) and vbudget:
                     vbudget -= 1
                     steps.append({"op": "verify", "i": steps[-1]["i"], "reps": ch.choice([1, 2]), "cross": ch.chance(0.3)})
@@ -1275,7 +1336,7 @@ def generate(ch, tier, prop):
                 vbudget -= 1
                 steps.append({"op": "verify", "i": i, "reps": 1})
         # transmissions with in-flight tampering: placed right after sign operations so that the spend is a valid one
-        TAMPER = ["sigfree_opcodes", "flip", "flip", "retag", "retag", "drop_sig", "swap_sigs", "dup_sig", "foreign_sig", "cb_parity", "cb_flip", "annex_only", "empty_witness", "truncate_witness", "sigfree_scriptsig", "sigfree_scriptsig", "wrong_script"]
+        TAMPER = ["program_splice", "sigfree_opcodes", "flip", "flip", "retag", "retag", "drop_sig", "swap_sigs", "dup_sig", "foreign_sig", "cb_parity", "cb_flip", "annex_only", "empty_witness", "truncate_witness", "sigfree_scriptsig", "sigfree_scriptsig", "wrong_script"]
         out = []
         tbudget = ch.randrange(1, 5)
         for st in steps:
@@ -1297,14 +1358,14 @@ SIGFREE_CAT = [[0x51, 0x00, 0x63], [0x51, 0x51, 0x64], [0x00, 0x63], [0x51, 0x64
 
 
 TAMPER_BY_KIND = {
-    "p2pkh": ["sigfree_opcodes", "flip_ss", "retag", "foreign_sig", "sigfree_scriptsig"],
-    "p2sh_ms": ["sigfree_opcodes", "flip_ss", "retag", "drop_sig", "swap_sigs", "dup_sig", "foreign_sig", "sigfree_scriptsig", "wrong_script"],
-    "p2wpkh": ["sigfree_opcodes", "flip", "retag", "foreign_sig", "empty_witness", "truncate_witness", "sigfree_scriptsig"],
-    "p2sh_p2wpkh": ["sigfree_opcodes", "flip", "flip_ss", "retag", "foreign_sig", "empty_witness", "sigfree_scriptsig"],
-    "p2wsh_ms": ["sigfree_opcodes", "flip", "retag", "drop_sig", "swap_sigs", "dup_sig", "foreign_sig", "empty_witness", "truncate_witness", "sigfree_scriptsig", "wrong_script"],
-    "p2sh_p2wsh_ms": ["sigfree_opcodes", "flip", "flip_ss", "retag", "drop_sig", "swap_sigs", "dup_sig", "foreign_sig", "sigfree_scriptsig", "wrong_script"],
-    "p2tr_key": ["sigfree_opcodes", "flip", "retag", "foreign_sig", "annex_only", "empty_witness", "sigfree_scriptsig"],
-    "p2tr_script": ["sigfree_opcodes", "flip", "retag", "drop_sig", "swap_sigs", "dup_sig", "foreign_sig", "cb_parity", "cb_flip", "annex_only", "truncate_witness", "sigfree_scriptsig", "wrong_script"],
+    "p2pkh": ["program_splice", "sigfree_opcodes", "flip_ss", "retag", "foreign_sig", "sigfree_scriptsig"],
+    "p2sh_ms": ["program_splice", "sigfree_opcodes", "flip_ss", "retag", "drop_sig", "swap_sigs", "dup_sig", "foreign_sig", "sigfree_scriptsig", "wrong_script"],
+    "p2wpkh": ["program_splice", "sigfree_opcodes", "flip", "retag", "foreign_sig", "empty_witness", "truncate_witness", "sigfree_scriptsig"],
+    "p2sh_p2wpkh": ["program_splice", "sigfree_opcodes", "flip", "flip_ss", "retag", "foreign_sig", "empty_witness", "sigfree_scriptsig"],
+    "p2wsh_ms": ["program_splice", "sigfree_opcodes", "flip", "retag", "drop_sig", "swap_sigs", "dup_sig", "foreign_sig", "empty_witness", "truncate_witness", "sigfree_scriptsig", "wrong_script"],
+    "p2sh_p2wsh_ms": ["program_splice", "sigfree_opcodes", "flip", "flip_ss", "retag", "drop_sig", "swap_sigs", "dup_sig", "foreign_sig", "sigfree_scriptsig", "wrong_script"],
+    "p2tr_key": ["program_splice", "sigfree_opcodes", "flip", "retag", "foreign_sig", "annex_only", "empty_witness", "sigfree_scriptsig"],
+    "p2tr_script": ["program_splice", "sigfree_opcodes", "flip", "retag", "drop_sig", "swap_sigs", "dup_sig", "foreign_sig", "cb_parity", "cb_flip", "annex_only", "truncate_witness", "sigfree_scriptsig", "wrong_script"],
 }
 
 
@@ -1373,7 +1434,19 @@ def enumerate_plans(tier, prop, seed):
                 if tk != "none":
                     t["mut"] = {"kind": "flip" if tk == "flip_ss" else tk, "a": (r.randrange(10000) if tk != "sigfree_opcodes" else rep * 3 + 1 + (rep % 2)), "b": (r.randrange(256) if tk != "sigfree_opcodes" else rep), "region": "ss" if tk == "flip_ss" else "w"}
                 yield {"version": 2, "locktime": 0, "inputs": [spec], "outputs": [{"amount": 90000, "spk": tm.spk_p2wpkh(bytes(20)).hex()}, {"amount": 5000, "spk": tm.spk_p2pkh(bytes(20)).hex()}],
-                       "steps": [{"op": "sign", "i": 0, "ht": r.choice([0, 1, 3, 0x81]), "pick": r.randrange(1000)}, t], "enum": "catalogue"}
+                       "steps": [{"op": "sign", "i": 0, "ht": r.choice([0, 1, 3, 0x81]), "pick": r.randrange(1000), "partial_first": kind == "p2tr_script" and rep % 2 == 0}, t], "enum": "catalogue"}
+    # witness-program splices: every variant x every kind it applies to, several key sets (the effect depends on key bytes)
+    for kind in KINDS:
+        for v in range(6):
+            for rep in range(4 if tier == "quick" else 24):
+                n = 1 if kind in ("p2pkh", "p2wpkh", "p2sh_p2wpkh", "p2tr_key") else 2
+                spec = {"kind": kind, "txid": "%064x" % r.getrandbits(256), "vout": 0, "sequence": 0xFFFFFFFE, "amount": 100000, "keys": r.sample(range(8), n)}
+                if n > 1 or kind == "p2tr_script":
+                    spec["m"] = n
+                    if kind == "p2tr_script":
+                        spec["internal"] = r.randrange(8)
+                yield {"version": 2, "locktime": 0, "inputs": [spec], "outputs": [{"amount": 90000, "spk": tm.spk_p2wpkh(bytes(20)).hex()}],
+                       "steps": [{"op": "transmit", "i": 0, "mut": {"kind": "program_splice", "a": v + 6 * rep, "b": rep, "region": "w"}}], "enum": "program-splice"}
     # signature-free opcode scriptSigs, exhaustively: every catalogue sequence x every placement around the redeem script (P2SH kinds),
     # every catalogue sequence alone (other kinds); no signing needed, the tampering replaces the scriptSig
     for kind in KINDS:
